@@ -68,6 +68,29 @@ structure Consistent (mi : MasterIndex) : Prop where
   rest : mi.rest = []
   ent : ∀ e, e ∈ entries mi.first ↔ ∃ id, id ∈ mi.first.ids ∧ e ∈ fileEntries (content id)
 
+/-- a state from which a load gives the right result: `idx[0]` is as in `Consistent`, the other
+    indexes are at most leftovers of an aborted load (final, with an id) -/
+structure Reloadable (mi : MasterIndex) : Prop where
+  wf : WFIdx mi.first
+  final : mi.first.final = true
+  ent : ∀ e, e ∈ entries mi.first ↔ ∃ id, id ∈ mi.first.ids ∧ e ∈ fileEntries (content id)
+  rest : ∀ i, i ∈ mi.rest → (!i.final || i.ids.isEmpty) = false
+
+theorem Consistent.reloadable {mi : MasterIndex} (hc : Consistent content mi) : Reloadable content mi :=
+  ⟨hc.wf, hc.final, hc.ent, fun i hi => by rw [hc.rest] at hi; cases hi⟩
+
+/-- an aborted load (some files decoded and inserted, then an error before the merge) leaves a
+    reloadable state -/
+theorem Reloadable.insert {mi : MasterIndex} (hr : Reloadable content mi) {f : IndexFile} {id : ID} {idx : Index}
+    (hd : decodeIndex f id = .ok idx) : Reloadable content (mi.insert idx) := by
+  obtain ⟨_, hfin, hids, _⟩ := decodeIndex_spec hd
+  refine ⟨hr.wf, hr.final, hr.ent, ?_⟩
+  intro i hi
+  simp only [MasterIndex.insert, List.mem_append, List.mem_singleton] at hi
+  rcases hi with hi | rfl
+  · exact hr.rest i hi
+  · simp [hfin, hids]
+
 theorem new_consistent : Consistent content MasterIndex.new :=
   ⟨⟨fun _ h => by simp [MasterIndex.new, Index.new] at h, fun _ h => by simp [MasterIndex.new, Index.new] at h⟩,
     rfl, rfl, fun e => by simp [MasterIndex.new, entries, entriesOf, Index.new]⟩
@@ -179,7 +202,7 @@ theorem mergeLoop_spec : ∀ (is : List Index) (first first' : Index) (keep keep
 
 /-- **Load** (fresh or incremental): afterwards the master index is consistent and holds exactly
     the files of the listing, whatever it held before -/
-theorem load_spec {mi mi' : MasterIndex} {fs : List (ID × Option IndexFile)} (hc : Consistent content mi)
+theorem load_spec {mi mi' : MasterIndex} {fs : List (ID × Option IndexFile)} (hc : Reloadable content mi)
     (ha : Agrees content fs) (h : mi.load fs = .ok mi') :
     Consistent content mi' ∧ (∀ id, id ∈ mi'.first.ids ↔ id ∈ fs.map (·.1)) ∧
       (∀ e, e ∈ entries mi'.first ↔ ∃ id, id ∈ fs.map (·.1) ∧ e ∈ fileEntries (content id)) := by
@@ -199,7 +222,11 @@ theorem load_spec {mi mi' : MasterIndex} {fs : List (ID × Option IndexFile)} (h
         simp only [Out.ok.injEq, Prod.mk.injEq] at hprep
         obtain ⟨e1, e2⟩ := hprep
         subst e1 e2
-        refine ⟨hc, rfl, ?_⟩
+        have hnil : mi.rest.filter (fun i => !i.final || i.ids.isEmpty) = [] := by
+          rw [List.filter_eq_nil_iff]
+          intro i hi
+          rw [hc.rest i hi]; simp
+        refine ⟨⟨hc.wf, hc.final, hnil, hc.ent⟩, rfl, ?_⟩
         intro id hid
         simp only [List.any_eq_true, Bool.not_eq_true', not_exists, not_and] at hall
         have := hall id hid
@@ -287,7 +314,7 @@ theorem mem_allEntries {files : List (ID × IndexFile)} {content : ID → IndexF
     order, a lookup returns exactly the pack locations recorded for the blob across all files, the
     listing of all blobs returns exactly all recorded entries, and the executable statement holds -/
 theorem lookup_set {content : ID → IndexFile} {mi mi' : MasterIndex} {files : List (ID × IndexFile)}
-    (hc : Consistent content mi) (hf : Functional files content)
+    (hc : Reloadable content mi) (hf : Functional files content)
     (h : mi.load (listing files) = .ok mi') (bh : Handle) :
     (∃ L, mi'.lookup bh = .ok L ∧ (∀ e, e ∈ L ↔ e ∈ allEntries files ∧ e.handle = bh) ∧
       specLookup files bh L = true) ∧
@@ -307,13 +334,13 @@ theorem lookup_set {content : ID → IndexFile} {mi mi' : MasterIndex} {files : 
     exact ⟨fun e he => (hall e).mp he, fun e he => (hall e).mpr he⟩
 
 /-- **incremental_eq_fresh**: a reload of an index that was loaded earlier (from any other set of
-    files) answers every lookup with the same set as a fresh load of the current files -/
+    files, also after an aborted load) answers every lookup with the same set as a fresh load of the current files -/
 theorem incremental_eq_fresh {content : ID → IndexFile} {mi mi1 mi2 : MasterIndex} {files : List (ID × IndexFile)}
-    (hc : Consistent content mi) (hf : Functional files content)
+    (hc : Reloadable content mi) (hf : Functional files content)
     (h1 : mi.load (listing files) = .ok mi1) (h2 : MasterIndex.new.load (listing files) = .ok mi2) (bh : Handle) :
     ∃ L1 L2, mi1.lookup bh = .ok L1 ∧ mi2.lookup bh = .ok L2 ∧ ∀ e, e ∈ L1 ↔ e ∈ L2 := by
   obtain ⟨⟨L1, hL1, hm1, _⟩, _⟩ := lookup_set hc hf h1 bh
-  obtain ⟨⟨L2, hL2, hm2, _⟩, _⟩ := lookup_set (new_consistent content) hf h2 bh
+  obtain ⟨⟨L2, hL2, hm2, _⟩, _⟩ := lookup_set (new_consistent content).reloadable hf h2 bh
   exact ⟨L1, L2, hL1, hL2, fun e => by rw [hm1 e, hm2 e]⟩
 
 /-- histories: successive successful loads of arbitrary listings (files added, superseded, deleted
@@ -330,7 +357,7 @@ theorem history_consistent (content : ID → IndexFile) :
     cases hl : mi.load (listing files) with
     | ok m1 =>
       rw [hl] at h
-      have hc1 := (load_spec content hc (agrees_listing (hf files (List.mem_cons_self ..))) hl).1
+      have hc1 := (load_spec content hc.reloadable (agrees_listing (hf files (List.mem_cons_self ..))) hl).1
       exact history_consistent content rest m1 mi' hc1 (fun f hm => hf f (List.mem_cons_of_mem _ hm)) h
     | err m =>
       rw [hl] at h
@@ -346,6 +373,36 @@ theorem history_consistent (content : ID → IndexFile) :
       induction rest with
       | nil => simp at h
       | cons a rest ih => simp only [List.foldl_cons, Out.bind] at h; exact ih h
+
+/-- the first phase of a load keeps the state reloadable (so does every insertion of a decoded
+    file, `Reloadable.insert`): whatever point an aborted load reaches, the next load is correct -/
+theorem prepare_reloadable {content : ID → IndexFile} {mi mi0 : MasterIndex} {listed loaded : List ID}
+    (hr : Reloadable content mi) (h : mi.prepareIncrementalLoad listed = .ok (mi0, loaded)) :
+    Reloadable content mi0 := by
+  simp only [MasterIndex.prepareIncrementalLoad] at h
+  split at h
+  · cases h
+  · split at h
+    · simp only [Out.ok.injEq, Prod.mk.injEq] at h
+      obtain ⟨e1, _⟩ := h
+      subst e1
+      exact (new_consistent content).reloadable
+    · simp only [Out.ok.injEq, Prod.mk.injEq] at h
+      obtain ⟨e1, _⟩ := h
+      subst e1
+      exact ⟨hr.wf, hr.final, hr.ent, fun i hi => hr.rest i (List.mem_filter.mp hi).1⟩
+
+/-- negation witness for the code before `fix/C08-stale-index-after-aborted-load` (finding): an
+    index inserted by an aborted load and not dropped is merged by the next load although its file
+    is gone — here the listing is empty and the lookup still answers -/
+example : ∃ idx mi, decodeIndex [([0xa1], [⟨.data, [1], 0, 40, 0⟩])] [0xe1] = .ok idx ∧
+    (MasterIndex.new.insert idx).mergeFinalIndexes = .ok mi ∧
+    mi.lookup ⟨.data, [1]⟩ = .ok [⟨[0xa1], ⟨.data, [1], 0, 40, 0⟩⟩] ∧
+    allEntries [] = [] := ⟨_, _, rfl, rfl, rfl, rfl⟩
+
+/-- the fixed `Load` drops it -/
+example : ∃ idx mi, decodeIndex [([0xa1], [⟨.data, [1], 0, 40, 0⟩])] [0xe1] = .ok idx ∧
+    (MasterIndex.new.insert idx).load [] = .ok mi ∧ mi.lookup ⟨.data, [1]⟩ = .ok [] := ⟨_, _, rfl, rfl, rfl⟩
 
 /-! ### `LookupSize` -/
 
